@@ -339,6 +339,9 @@ def run(c):
   fault_stage(c, remote=True)
   unreachable_pythia_stage(c)
   client_stage(c)
+  # the client library's reporting of failures (operation.error -> RuntimeError, bounded polling): Model/Client.lean
+  from vcheck import clientcheck
+  clientcheck.stage(c, 'C06')
   svc.cleanup()
   return c.finish(
       level='proof',
